@@ -116,6 +116,12 @@ CHECKS = {
         design="§7 C10",
         note="bulletproofs soundness, AES-GCM idealised. Known finding: decrypt_scalar works only for the standard generator. Deviations inside the byte decomposition (non-canonical m+r decomposition) need a bulletproof prover in the harness and are not exercised.",
         technique="Coq theorems about the verifier model (linkage, required decryptable part, group decryption) + differential correspondence + decryption checks on honest presentations"),
+    "C16": dict(
+        text="Theorems: the issuer's recomputation equals the holder's hashed commitment for every request that lists the hidden claims in index order and covers exactly the claims the issuer does not supply (any schema size, both suites); unblinded blind signatures satisfy the ordinary verification equation over the union of issuer-known and hidden claims; the response vector has exactly one entry per unsupplied claim (+1 for PS), and two accepting transcripts open the commitment on the unsupplied claims' generators only; the label policy (declared blindable, disjoint from the issuer's, no repeats, counts add up); PS requests are perfectly hiding (bijection on the blinding factor); BBS requests are not (refutation theorem, known finding). "
+             "Correspondence: 4 label sets x every non-empty hidden subset x BBS/PS through the public API (incl. credentials presenting) with tampered requests, and an external holder's contexts against the Coq issuer-side model.",
+        design="§7 C16",
+        note="Fiat-Shamir symbolic; the external holder replicates the request transcript labels (a consistent relabelling in the library would desynchronise it and be reported with no-failing-input-found). BBS hiding is a known finding.",
+        technique="Coq theorems (completeness, special soundness, policy, hiding bijection) + exhaustive-subset differential correspondence of the three-step protocol"),
 }
 
 PLANNED = {
